@@ -1,6 +1,30 @@
 (** C02 — hash tables behave as a map for any hash function, options and history.
-    (first stage: the model and its non-vacuity examples; the refinement theorems follow) *)
-From Algo.C02 Require Import Model.
+    Statements only; proofs live in C02/.
+
+    [run K V eqb eqv hash minlf maxlf orc kd cap ops] (C02/Spec.v) creates two tables of kind [kd] with
+    initial capacity [cap] (0 = default) and executes the history [ops] — Put, Get, Delete, DeleteAll,
+    Size, IsEmpty, All on either table and [Equal] of one against the other — on the model of
+    C02/Model.v; [orc i j] is the permutation drawn by the j-th [All()] inside the i-th operation.
+    [run_spec] executes the same history on two abstract maps (duplicate-free association lists).
+    [outs_match]: the outputs agree pointwise (All up to permutation) and no model output is a
+    failure ([RFail]: Panic or Hang). *)
+From Coq Require Import List NArith Permutation.
+From Algo.C02 Require Import Model Spec ProofsChain.
+Import ListNotations.
+
+(** Separate chaining: full refinement, for every key/value type with a decidable equality, every
+    hash function, all options with maxLF*4 >= 1 and 2*minLF <= maxLF (the defaults 2 and 10, and
+    everything tighter), the default or any power-of-two capacity >= 4, every iteration oracle and
+    every history. *)
+Theorem C02_refines_chain :
+  forall (K V : Type) (eqb : K -> K -> bool) (eqv : V -> V -> bool) (hash : K -> N) (minlf maxlf : lf),
+    (forall a b, eqb a b = true <-> a = b) ->
+    valid_chain minlf maxlf ->
+    forall (cap : nat), valid_cap_chain cap ->
+    forall (orc : nat -> nat -> list nat -> list nat), (forall i j l, Permutation (orc i j l) l) ->
+    forall ops : list (op K V),
+      outs_match K V (run K V eqb eqv hash minlf maxlf orc Chain cap ops) (run_spec K V eqb eqv ops).
+Proof. intros. apply chain_refines; auto. Qed.
 
 (** Non-vacuity: one history on each of the four tables under the constant hash function
     (every key collides): put 40 keys (all tables grow at least once), delete and revive some. *)
@@ -23,3 +47,13 @@ Example C02_example :
   map ex_hist [Chain; Linear; Quadratic; Double]
   = repeat (Ok (39, [Some 105; None; Some 140])) 4.
 Proof. vm_compute. reflexivity. Qed.
+
+(** the options and capacities of the theorems are inhabited by the defaults *)
+Example C02_chain_defaults_valid :
+  valid_chain {| lf_num := 2; lf_den := 1 |} {| lf_num := 10; lf_den := 1 |} /\ valid_cap_chain 0 /\ valid_cap_chain 64.
+Proof.
+  split; [unfold valid_chain; simpl; repeat split; auto with arith|].
+  split; [left; reflexivity|right; exists 6; split; auto with arith].
+Qed.
+
+Print Assumptions C02_refines_chain.
